@@ -246,6 +246,13 @@ class ExplorerScriptSsbDecompiler:
         #       Might need this more flexible.
         self.smb.add_opcode(op_offset, self._line_number, self.indent * NUMBER_OF_SPACES_PER_INDENT)
 
+    def source_map_add_opcode_in_current_line(self, op_offset: int, columns_ahead: int = 0) -> None:
+        """Like source_map_add_opcode, for a statement that continues the current line (`} elseif (...)`).
+        Has to be called BEFORE writing the opcode, which begins columns_ahead characters after the end of the line."""
+        assert self.smb is not None
+        column = len(self._output) - (self._output.rfind("\n") + 1) + columns_ahead
+        self.smb.add_opcode(op_offset, self._line_number - 1, column)
+
     def source_map_add_position_mark(self, length: int, param: SsbOpParamPositionMarker) -> None:
         assert self.smb is not None
         col_number = self.indent * NUMBER_OF_SPACES_PER_INDENT
